@@ -39,7 +39,14 @@ pub fn run_case(g: &mut FnGraph<TFn>, rs: &RunSpec, tape: &mut Tape) -> Trace {
     let sh = RunState::new(n, rs, tx);
     if rs.api.is_stream() {
         let (term, polls, idle) = {
-            let stream = start_stream(rs, &*g, rx);
+            // `stream*()` does its set-up eagerly: a panic there must not take the worker down.
+            let stream = match std::panic::catch_unwind(std::panic::AssertUnwindSafe(|| start_stream(rs, &*g, rx))) {
+                Ok(s) => s,
+                Err(p) => {
+                    let log = vec![Ev::Panic];
+                    return Trace { term: Term::Panicked(format!("creating the stream: {}", crate::director::panic_msg(p))), result: None, log, quiescent: 0, polls: 0, runs_after: None };
+                }
+            };
             let mut d = StreamDriver::new(stream, sh.clone(), rs, tape);
             d.run(tape);
             (d.term.clone().unwrap(), d.polls, d.idle_points)
